@@ -17,6 +17,7 @@ type DocSpec struct {
 	Kind     string // nil resource softcollection resources wrappercollection identifier identifiers
 	Primary  []*ResSpec
 	ColType  *TypeSpec
+	Shared   bool // a SoftCollection is typed with the schema's own type value (typ := schema.GetType(n); col.SetType(&typ)), not with a copy
 	Idents   []jsonapi.Identifier
 	Included []*ResSpec
 	Meta     map[string]interface{}
@@ -196,6 +197,7 @@ func DrawDoc(t *core.Tape, s *SchemaSpec, o DocOptions) *DocSpec {
 		}
 
 		d.ColType = main
+		d.Shared = t.Bool(1, 2)
 		n := t.Range(o.MinPrimary, o.MaxPrimary)
 
 		for i := 0; i < n; i++ {
@@ -515,8 +517,15 @@ func (d *DocSpec) Materialise(schema *jsonapi.Schema, o MatOptions) (*jsonapi.Do
 	case "softcollection":
 		col := &jsonapi.SoftCollection{}
 		typ := schema.GetType(d.ColType.Name)
-		ct := typ.Copy()
-		col.SetType(&ct)
+
+		if d.Shared {
+			// the usual way: the collection's type shares its field maps with the schema's
+			// (its members are of that very type, so nothing is ever added to them)
+			col.SetType(&typ)
+		} else {
+			ct := typ.Copy()
+			col.SetType(&ct)
+		}
 
 		for _, rs := range d.Primary {
 			col.Add(mk(rs))
